@@ -1,6 +1,8 @@
 package main
 
 import (
+	"regexp/syntax"
+	"sync"
 	gopath "path"
 	"fmt"
 	"go/types"
@@ -649,6 +651,22 @@ var natives = map[string]extFn{
 		if re.String() == hexFloatPattern {
 			return e.mHexFloatRe(strBytes(a[1]))
 		}
+		if re.String() == `^[0-9]+.+$` {
+			// one or more digits followed by one or more non-newline characters, anchored at both ends
+			b := strBytes(a[1])
+			if len(b) < 2 || !e.isDigitV(b[0]) {
+				return false
+			}
+			for _, c := range b[1:] {
+				if e.isByte(c, '\n') {
+					return false
+				}
+			}
+			return true
+		}
+		if len(strBytes(a[1])) < regexMinLen(re.String()) {
+			return false // shorter than the shortest string the pattern can match
+		}
 		if regexp.QuoteMeta(re.String()) == re.String() {
 			// a pattern without metacharacters matches exactly when it occurs as a substring
 			return e.mIndex(strBytes(a[1]), strBytes(re.String())) >= 0
@@ -656,6 +674,20 @@ var natives = map[string]extFn{
 		e.unsupported("regexp.MatchString with symbolic string: " + re.String())
 		return nil
 	},
+	"(*regexp.Regexp).FindAllString": func(e *Engine, _ *frame, _ *ssa.Function, a []value) value {
+		n := (*a[0].(*value)).(*native)
+		re := n.obj.(*regexp.Regexp)
+		if s, ok := a[1].(string); ok {
+			return strSliceVal(re.FindAllString(s, int(sext(a[2].(uint64), 64))))
+		}
+		if len(strBytes(a[1])) < regexMinLen(re.String()) {
+			return []value(nil) // shorter than the shortest string the pattern can match: no match
+		}
+		e.unsupported("regexp.FindAllString with symbolic string long enough to match: " + re.String())
+		return nil
+	},
+	"(time.Time).Unix":     func(e *Engine, _ *frame, _ *ssa.Function, a []value) value { return uint64(0) },
+	"(time.Time).UnixNano": func(e *Engine, _ *frame, _ *ssa.Function, a []value) value { return uint64(0) },
 	"math.Pow": func(e *Engine, _ *frame, _ *ssa.Function, a []value) value {
 		return math.Pow(a[0].(float64), a[1].(float64))
 	},
@@ -712,4 +744,52 @@ func pathMatch(p, n string) (bool, error) { return gopath.Match(p, n) }
 func init() {
 	natives["sort.Sort"] = sortModel
 	natives["sort.Stable"] = sortModel
+}
+
+var regexMinCache sync.Map
+
+// regexMinLen is the length in bytes of the shortest string the pattern can match (0 if unknown).
+func regexMinLen(pattern string) int {
+	if v, ok := regexMinCache.Load(pattern); ok {
+		return v.(int)
+	}
+	n := 0
+	if re, err := syntax.Parse(pattern, syntax.Perl); err == nil {
+		n = reMin(re.Simplify())
+	}
+	regexMinCache.Store(pattern, n)
+	return n
+}
+
+func reMin(re *syntax.Regexp) int {
+	switch re.Op {
+	case syntax.OpLiteral:
+		return len(re.Rune) // every rune is at least one byte
+	case syntax.OpCharClass, syntax.OpAnyCharNotNL, syntax.OpAnyChar:
+		return 1
+	case syntax.OpCapture:
+		return reMin(re.Sub[0])
+	case syntax.OpPlus:
+		return reMin(re.Sub[0])
+	case syntax.OpRepeat:
+		return re.Min * reMin(re.Sub[0])
+	case syntax.OpConcat:
+		t := 0
+		for _, s := range re.Sub {
+			t += reMin(s)
+		}
+		return t
+	case syntax.OpAlternate:
+		m := -1
+		for _, s := range re.Sub {
+			if k := reMin(s); m < 0 || k < m {
+				m = k
+			}
+		}
+		if m < 0 {
+			return 0
+		}
+		return m
+	}
+	return 0
 }
